@@ -44,6 +44,16 @@ pub struct Sc {}
 #[unit(Sn_Mid, "m")]
 pub struct Sn {}
 
+// without reference unit: names (underscores shown as spaces) and variant identifiers
+// (UpperCamel) sort differently — ' ' < 'A' but 'B' > 'A'; 'a' > 'B' but "Apple" < "Banana"
+#[quantity]
+#[unit(Sx_bar_Baz, "xb")]
+#[unit(Sx_barA, "xa")]
+#[unit(Sx_apple, "x1")]
+#[unit(Sx_Banana, "x2")]
+#[unit(Sx_Foo_a, "x3")]
+pub struct Sx {}
+
 // single unit
 #[quantity]
 #[unit(Su_Only, "u1")]
